@@ -57,9 +57,9 @@ PROPS["C01"] = {
 }
 
 PROPS["C04"] = {
-    "imports": DATA_IMPORTS,
+    "imports": DATA_IMPORTS + " Spec.FuncKind",
     "prelude": "Definition cfg := Cfg{TAG}.cfg.",
-    "level_text": "Theorems for all argument counts, flag sets and co_varnames tuples: the decoded Args are exactly inspect's binding of co_varnames (kinds and order), len is the "
+    "level_text": "Theorem C04_docstring_kind_and_type_none: whenever decoding succeeds the data has a function type exactly for function-like code (module / class body: type None), its docstring is CPython's __doc__ (co_consts[0] when a str), its type is inspect's classification (one flag bit each), its args are read from exactly the header fields and bits of the signature theorem; Spec/FuncKind.v is compared with real function objects and inspect on every run. Theorems for all argument counts, flag sets and co_varnames tuples: the decoded Args are exactly inspect's binding of co_varnames (kinds and order), len is the "
                   "total, the encoder reproduces counts/names/flags; tied to _args.py by function-level correspondence; docstring/kind/type-None clauses decided by the oracle "
                   "(inspect.signature, __doc__, inspect.is*function on real function objects) over all signature shapes x scope kinds",
     "level_note": "Spec/Sig.v is a transcription of inspect._signature_from_function; the oracle calls the real inspect on 3.7-3.10; docstring and kind are header glue modelled in decode_code (correspondence of C01) but their CPython side (funcobject.c __doc__ rule) is only exercised by the oracle",
@@ -122,8 +122,8 @@ PROPS["C09"] = {
     "replay_hint": "compile the named source; inspect _index_override / _additional_args of CodeData.from_code(c)",
 }
 PROPS["C05"] = {
-    "imports": VIEW_IMPORTS + " Proofs.C11_Statements Proofs.C01_Statements Proofs.C03_Statements Proofs.C03b_Statements Proofs.C03c_Statements Proofs.NormalFormWf", "prelude": "Definition cfg := Cfg{TAG}.cfg.",
-    "level_text": "Theorem: for every configuration and every code object satisfying view_wf (opcodes known), the normal form of the decoded data reads as the original's instruction stream (opcodes, resolved operands with nested code normalized in turn, jump structure, lines), it is well-formed data, and CPython's disassembler / line reader read the code re-encoded from it as that same stream, with name, filename, first line, stack size and free variables unchanged (composition of C02's decoder theorem, the normal-form well-formedness and C03's encoder theorem). Premises are evaluated on every corpus object (wf-monitor); normalize-then-encode of model and code are compared as full code objects. The behavioural clause (same results, output, exceptions, traced lines) is proved parametrically (Spec/Exec.v, Proofs/ExecLayout.v): for EVERY interpreter whose per-instruction semantics observes opcode, resolved operand and line only (not distinguishing key-equal constants nor a nested code constant from its normal form), CPython's byte-offset execution of a code object is the index execution of its symbolic view (no premise), and the original and the re-encoded normal form end in the same state with the same outcome after the same (opcode, line) event sequence for every fuel and initial state. That ceval is such an interpreter is an assumption, exercised by executing generated terminating programs before/after (stdout, exception, line trace)", "level_note": "execution equivalence is proved for the class of operand-level interpreters only; CPython's ceval itself is not modelled (no object model, no stack): that it belongs to the class is assumed and tested by execution; flags (CO_NESTED / CO_NOFREE differences) are checked by the oracle's header comparison, not in the theorem", "trusted_base": COMMON_TB + ["CPython's evaluation of bytecode (exec, sys.settrace) for the behavioural clause: outside every theorem"], "assumptions": [],
+    "imports": VIEW_IMPORTS + " Proofs.C11_Statements Proofs.C01_Statements Proofs.C03_Statements Proofs.C03b_Statements Proofs.C03c_Statements Proofs.NormalFormWf Spec.Exec", "prelude": "Definition cfg := Cfg{TAG}.cfg.",
+    "level_text": "Theorem: for every configuration and every code object satisfying view_wf (opcodes known), the normal form of the decoded data reads as the original's instruction stream (opcodes, resolved operands with nested code normalized in turn, jump structure, lines), it is well-formed data, and CPython's disassembler / line reader read the code re-encoded from it as that same stream, with name, filename, first line, stack size and free variables unchanged (composition of C02's decoder theorem, the normal-form well-formedness and C03's encoder theorem). Premises are evaluated on every corpus object (wf-monitor); normalize-then-encode of model and code are compared as full code objects. The behavioural clause (same results, output, exceptions, traced lines) is proved parametrically (Spec/Exec.v, Proofs/ExecLayout.v): for EVERY interpreter whose per-instruction semantics observes opcode, resolved operand and line only (not distinguishing key-equal constants nor a nested code constant from its normal form), CPython's byte-offset execution of a code object is the index execution of its symbolic view (no premise), and the original and the re-encoded normal form end in the same state with the same outcome after the same (opcode, line) event sequence for every fuel and initial state. That ceval is such an interpreter is an assumption, exercised by executing generated terminating programs before/after (stdout, exception, line trace); the machine of Spec/Exec.v itself is validated on every run against the real eval loop: driven by the branch decisions CPython took (sys.settrace opcode events), it must visit the same instructions with the same lines (group spec-exec)", "level_note": "execution equivalence is proved for the class of operand-level interpreters only; CPython's ceval itself is not modelled (no object model, no stack): that it belongs to the class is assumed and tested by execution; flags (CO_NESTED / CO_NOFREE differences) are checked by the oracle's header comparison, not in the theorem", "trusted_base": COMMON_TB + ["CPython's evaluation of bytecode (exec, sys.settrace) for the behavioural clause: outside every theorem"], "assumptions": [],
     "rule": "every corpus / generated code object: symbolic equivalence (dis view, header) of c and normalize().to_code(); generated terminating programs executed with stdout, exception and line trace compared; "
             "distinct = distinct (co_code, name, firstlineno, line table)",
     "replay_hint": "compile data.source (or the named file); c2 = CodeData.from_code(c).normalize().to_code(); compare dis views / exec both",
